@@ -329,6 +329,9 @@ func vC05Respond(req *dns.Msg, epoch int) *dns.Msg {
 	case "pos":
 		// an upstream may leave AA set: a cached answer is never authoritative on either path
 		resp.Authoritative = strings.HasSuffix(first, "1")
+		// ... and a forwarder relays the header of an upstream that does not offer recursion: RA is kept as
+		// admitted on both paths (exact hits and, through pos2 / cb0, the hops of composed chains)
+		resp.RecursionAvailable = !strings.HasSuffix(first, "1") && !strings.HasSuffix(first, "2")
 		switch q.Qtype {
 		case dns.TypeA:
 			resp.Answer = []dns.RR{vC05A(q.Name, ttl, idx), vC05A(q.Name, ttl, idx+1)}
@@ -351,6 +354,7 @@ func vC05Respond(req *dns.Msg, epoch int) *dns.Msg {
 		if next == "" {
 			next = "pos0"
 		}
+		resp.RecursionAvailable = first != "ca1" // relayed from a non-recursive upstream (see pos1)
 		if q.Qtype == dns.TypeCNAME || q.Qtype == dns.TypeA || q.Qtype == dns.TypeAAAA || q.Qtype == dns.TypeMX || q.Qtype == dns.TypeTXT {
 			resp.Answer = []dns.RR{vC05CNAME(q.Name, next+"."+vC05Zone, ttl)}
 		} else {
@@ -362,6 +366,7 @@ func vC05Respond(req *dns.Msg, epoch int) *dns.Msg {
 			next = "pos0"
 		}
 		resp.Answer = []dns.RR{vC05CNAME(q.Name, next+"."+vC05Zone, ttl)}
+		resp.RecursionAvailable = first != "cb0" // a hop in the middle of a chain whose other legs offer recursion
 	case "cx": // alias onto a hop whose own answer carries a self-alias next to the terminal record
 		if q.Qtype == dns.TypeA || q.Qtype == dns.TypeAAAA || q.Qtype == dns.TypeCNAME {
 			resp.Answer = []dns.RR{vC05CNAME(q.Name, "cy"+first[2:]+"."+vC05Zone, ttl)}
@@ -1108,7 +1113,10 @@ func (g *vC05Gen) query(ip net.IP) *vC05Query {
 			q.zbits = g.pick(0x4000, 0x0001, 0x7FFF)
 			tags = append(tags, "z-bits")
 		}
-		if g.ecsBias && g.r.Intn(100) < 35 {
+		// a client-subnet option is what a stub sends whatever the server is configured to do: often under an ECS
+		// policy, now and then without one (the option is then stripped and the query shares the plain key - but
+		// neither path may answer it from the shared denial rungs)
+		if p := g.r.Intn(100); (g.ecsBias && p < 35) || p < 7 {
 			fam, mask, addr := 1, g.pick(24, 24, 32, 16, 8, 0), []byte{192, 0, 2, 77}
 			if g.r.Intn(4) == 0 {
 				fam, mask, addr = 2, g.pick(56, 48, 64, 128, 32), []byte{0x20, 0x01, 0x0d, 0xb8, 0, 1, 2, 3, 4, 5, 6, 7, 8, 9, 10, 11}
@@ -1270,8 +1278,7 @@ func vC05Bytes(b []byte) string {
 	return sb.String()
 }
 
-// classify what the minimal pipeline did: the stub answers NOERROR with RA set, so
-// anything else was decided before it
+// classify what the minimal pipeline did: FORMERR / NOTIMP / BADVERS are decided in front of the stub
 func vC05Classify(handled bool, wrote bool, reply []byte) int {
 	if !handled {
 		return vC05VFormErrBody
@@ -1290,10 +1297,10 @@ func vC05Classify(handled bool, wrote bool, reply []byte) int {
 		return vC05VNotImpOpcode
 	case m.Rcode == dns.RcodeBadVers:
 		return vC05VBadVers
-	case m.RecursionAvailable:
-		return vC05VProceed
 	}
-	return vC05VOther
+	// any other reply is the stub's (whatever RA it relays: some scripted names answer like a non-recursive
+	// upstream behind a forwarder): the packet was handed on
+	return vC05VProceed
 }
 
 // the strict ingress phase serves every packet through ONE job slot (reused like an engine slab)
@@ -2183,11 +2190,23 @@ func TestVerifC05Differential(t *testing.T) {
 	ecs4 := func(a, b, c byte, mask int) []byte {
 		return vC05Opt(8, append([]byte{0, 1, byte(mask), 0}, []byte{a, b, c, 0}[:(mask+7)/8]...))
 	}
-	for _, mode := range []int{1, 2} {
-		for _, ip := range []net.IP{net.IPv4(203, 0, 113, 30), net.IPv4(203, 0, 113, 30).To4(), net.IPv4(203, 0, 113, 99), net.ParseIP("2001:db8:c05::30")} {
+	// ... under every ECS configuration INCLUDING none (mode 0: the default; the option is stripped), and on every
+	// rung of the ladder: exact hits, names below a validated NXDOMAIN cut, inside an aggressive-denial span, cached
+	// failures - with the option, without it, and with it again once the plain query has been answered
+	for _, mode := range []int{0, 1, 2} {
+		ips := []net.IP{net.IPv4(203, 0, 113, 30), net.IPv4(203, 0, 113, 30).To4(), net.IPv4(203, 0, 113, 99), net.ParseIP("2001:db8:c05::30")}
+		if mode == 0 {
+			ips = ips[1:3]
+		}
+		for _, ip := range ips {
 			add2(vC05Toggles{ecs: mode}, pko("pos1", 1, ip, ecs4(192, 0, 2, 24)), pko("pos1", 1, ip, ecs4(192, 0, 2, 24)), pko("pos1", 1, ip, ecs4(192, 0, 3, 24)),
 				pko("pos1", 1, ip), pko("pos0", 1, ip, ecs4(192, 0, 2, 24)), pko("pos0", 1, ip), pko("pos2", 1, ip, ecs4(192, 0, 2, 32)), pko("pos2", 1, ip, ecs4(192, 0, 2, 16)),
 				pko("nx0", 1, ip, ecs4(192, 0, 2, 24)), pko("nx0", 1, ip), pko("sf0", 1, ip, ecs4(192, 0, 2, 24)), pko("sf0", 1, ip))
+			for _, r8198 := range []int{0, 2} {
+				add2(vC05Toggles{ecs: mode, rfc8198: r8198}, pko("nx1", 1, ip), pko("a.nx1", 1, ip, ecs4(192, 0, 2, 24)), pko("a.nx1", 1, ip), pko("a.nx1", 1, ip, ecs4(192, 0, 2, 24)),
+					pko("b.a.nx1", 28, ip, ecs4(192, 0, 2, 16)), pko("nxf0", 1, ip, ecs4(192, 0, 2, 24)), pko("nxf0", 1, ip), pko("nxf0", 1, ip, ecs4(192, 0, 2, 24)),
+					pko("sf0", 1, ip), pko("a.sf0", 1, ip, ecs4(192, 0, 2, 24)), pko("sf0", 1, ip, ecs4(192, 0, 2, 24)))
+			}
 		}
 	}
 	// cookies against the per-client limiter over UDP and TCP: first contact, the server cookie echoed,
